@@ -215,9 +215,9 @@ def random_continuum(pa, rng, n_ann, max_units, unlabelled=0.0, grid=True, allow
 
 def random_dissim(pa, rng, c, allow_cat=True):
     """A built-in dissimilarity with random parameters, applicable to continuum c."""
-    de = rng.choice([0.5, 1.0, 2.0])
-    alpha = rng.choice([0.0, 0.5, 1.0, 3.0])
-    beta = rng.choice([0.0, 0.5, 1.0, 3.0])
+    de = rng.choice([0.5, 1.0, 2.0, 0.5, 1.0, 2.0, 0.85, 1.7, 1.45, 2.9, 0.3, 1.95, 1.15])     # dyadic and non-dyadic values
+    alpha = rng.choice([0.0, 0.5, 1.0, 3.0, 0.7, 2.2])
+    beta = rng.choice([0.0, 0.5, 1.0, 3.0, 1.3])
     labelled = all(u.annotation is not None for _, u in c) and len(c.categories) > 0
     kinds = ["pos", "comb_abs", "abs"]
     if labelled and allow_cat:
